@@ -165,8 +165,12 @@ def check_C06(chk, tier, seed):
     big_lines = [f"H g NEW 110 4 0 {hx(7 + j)} 2 1 ADDAVP 3f3 - 0 L octz {hx(n)}" for j, n in enumerate([4100, 5000, 9001, 16385, 21000] + ([70000, 300001] if tier == "thorough" else []))]
     big = []
     for c, im in zip(big_lines, core.run_sharded([eng.harness, "codec"], eng.prelude, big_lines, shards=1)):
+        if " ENC2DIFF " in im:
+            chk.violation("what is written for a message depends on the writer / on Codec::encode vs encode_to / on having been encoded before: " + short(im[im.index(" ENC2DIFF "):], 120),
+                          dict(case=c, impl=short(im, 400)))
+            im = im[:im.index(" ENC2DIFF ")]
         if im.startswith("R ok") and " ENC x" in im:
-            big.append((c, bytes.fromhex(im[im.rindex(" ENC ") + 6:]), msg_text(im)))
+            big.append((c, bytes.fromhex(im[im.rindex(" ENC ") + 6:].split()[0]), msg_text(im)))
     for (c, fr, obs) in big:
         for script in ([], [4096] * (len(fr) // 4096 + 1), [1000, "p"] * (len(fr) // 1000 + 1), [16384] * (len(fr) // 16384 + 1), [len(fr) - 1, 1]):
             cases.append(f"SE {c[2:]} {ws(script)}")
